@@ -9,7 +9,30 @@ func HarnessC19a() {
 	bf := uint(verifBound("BF"))
 	st := newVStore("s1")
 	cfg := symConfig(st, nil)
-	t, err := NewRoot(&CreateRemoteOptions{BranchFactor: bf}).LoadMast(vctx, cfg)
+	fm := verifBoundOr("FMT", 0) // 0 binary, 1 v1marshaler (raw two-stage decode), 2 v1marshaler (registered types)
+	cfg.UnmarshalerUsesRegisteredTypes = fm == 2
+	encodeTop := func(keys, vals []uint64, links []string) []byte {
+		if fm == 0 {
+			return refEncode(keys, vals, links)
+		}
+		n := Node{}
+		for _, k := range keys {
+			n.Key = append(n.Key, symKey{k})
+		}
+		for _, v := range vals {
+			n.Value = append(n.Value, v)
+		}
+		for _, l := range links {
+			if l == "" {
+				n.Link = append(n.Link, nil)
+			} else {
+				n.Link = append(n.Link, l)
+			}
+		}
+		b, _ := symMarshal(n)
+		return b
+	}
+	t, err := NewRoot(&CreateRemoteOptions{BranchFactor: bf, NodeFormat: fmtOf(fm)}).LoadMast(vctx, cfg)
 	verifAssert("C01.new.err", err == nil)
 	md := &symModel{}
 	buildAscending("build", t, md, N)
@@ -18,7 +41,25 @@ func HarnessC19a() {
 	if err != nil || r.Link == nil {
 		return
 	}
-	top := loadPNode(st, *r.Link, int(r.Height), true)
+	var top *pnode
+	if fm == 0 {
+		top = loadPNode(st, *r.Link, int(r.Height), true)
+	} else if i := st.find(*r.Link); i >= 0 {
+		// v1marshaler top node in the harness marshaler's encoding
+		if kb, vb, links, ok := symParseNode(st.blobs[i]); ok {
+			top = &pnode{name: *r.Link, level: int(r.Height), top: true}
+			for _, x := range kb {
+				top.keys = append(top.keys, verifGetU64(x))
+			}
+			for _, x := range vb {
+				top.vals = append(top.vals, verifGetU64(x))
+			}
+			if len(links) == 0 {
+				links = make([]string, len(kb)+1)
+			}
+			top.links = links
+		}
+	}
 	verifAssert("C03.complete", top != nil)
 	if top == nil {
 		return
@@ -31,7 +72,20 @@ func HarnessC19a() {
 		st.Store(vctx, name, b)
 		bad.Link = &name
 	}
-	switch verifChoose("perturb", 9) {
+	switch verifChoose("perturb", 10) {
+	case 9: // one link too few (the remaining list still has a non-nil entry, so it is not the trimmed form)
+		short := append([]string{}, top.links[:len(top.links)-1]...)
+		any := false
+		for _, l := range short {
+			if l != "" {
+				any = true
+			}
+		}
+		if !any {
+			verifAssume(false)
+		}
+		replaceTop(encodeTop(top.keys, top.vals, short))
+		mustReject, why = true, "count-mismatch"
 	case 0: // unknown node format
 		bad.NodeFormat = "v9.unknown"
 		mustReject, why = true, "unknown-format"
@@ -48,10 +102,10 @@ func HarnessC19a() {
 		bad.Link = &name
 		mustReject, why = true, "top-missing"
 	case 3: // more values than keys
-		replaceTop(refEncode(top.keys, append(append([]uint64{}, top.vals...), 7), top.links))
+		replaceTop(encodeTop(top.keys, append(append([]uint64{}, top.vals...), 7), top.links))
 		mustReject, why = true, "count-mismatch"
 	case 4: // one link too many
-		replaceTop(refEncode(top.keys, top.vals, append(append([]string{}, top.links...), *r.Link)))
+		replaceTop(encodeTop(top.keys, top.vals, append(append([]string{}, top.links...), *r.Link)))
 		mustReject, why = true, "count-mismatch"
 	case 5: // two adjacent keys swapped (needs two keys in the top node)
 		if len(top.keys) < 2 {
@@ -60,7 +114,7 @@ func HarnessC19a() {
 		i := verifChoose("swap", len(top.keys)-1)
 		ks := append([]uint64{}, top.keys...)
 		ks[i], ks[i+1] = ks[i+1], ks[i]
-		replaceTop(refEncode(ks, top.vals, top.links))
+		replaceTop(encodeTop(ks, top.vals, top.links))
 		mustReject, why = true, "not-ascending"
 	case 6: // loader uses the reversed key order
 		if len(top.keys) < 2 {
@@ -87,6 +141,9 @@ func HarnessC19a() {
 		cfg = &cfg2
 		mustReject, why = true, "tie-under-configured-order"
 	case 7: // arbitrary bytes as top node: undecodable input must be rejected
+		if fm != 0 {
+			verifAssume(false) // the independent decodability oracle knows the binary format only
+		}
 		L := verifChoose("len", verifBound("L")+1)
 		b := make([]byte, L)
 		for i := range b {
